@@ -83,6 +83,8 @@ func c11History(k *fw.K, quick bool) {
 		if m.B < 2 {
 			m.B = 2 + r.Intn(3)
 		}
+		// a rate small enough for the logits to stay inside Softmax's domain (|x| <= 700) over the whole history
+		m.LR, m.conf, m.lr = "1e-6", &optimizers.SGDConfig{LearningRate: 1e-6}, 1e-6
 	}
 	if m.Variant == "exact-fit" { // dyadic data: some residuals are exactly 0 from the first step on
 		m.Act, m.Loss, m.B = "none", "mse", 1 // no activation: an exact 0 pre-activation would sit on Relu's non-differentiable point
@@ -430,7 +432,18 @@ func c11History(k *fw.K, quick bool) {
 				return o
 			}
 			wantSum, wantAvg := predict(gSum[1+wi]), predict(gAvg[1+wi])
-			if e := gradClose(got, wantSum); e != nil {
+			if m.Variant == "large-logits" {
+				// with saturated Softmax rows the two halves of dLoss/dlogit (direct and through the normaliser) are huge and cancel;
+				// under the recorded Broadcast finding they no longer cancel and the averaged model is not validated in that regime.
+				// This variant therefore decides the FORWARD side of every step (the loss above) and that the step is taken with finite values.
+				for _, v := range got.Data {
+					if math.IsNaN(v) || math.IsInf(v, 0) {
+						k.Failf("step %d of FC(%d->%d)->%s->%s batch %d [%s]: weight %d is %v after the step", step, m.D, m.O, m.Act, m.Loss, m.B, m.Variant, wi, got.Data)
+						return
+					}
+				}
+				k.Count("steps_decided_on_the_forward_side_only(large logits)", 1)
+			} else if e := gradClose(got, wantSum); e != nil {
 				expands := m.B > 1 || (m.Act == "softmax" && m.O > 1)
 				if expands && gradClose(got, wantAvg) == nil {
 					k.Knownf(knownBroadcastMean, "step %d of FC(%d->%d)->%s->%s batch %d: weight %d moved by lr x (gradient with expanded operands averaged over their copies) instead of lr x dLoss/dw (%v)", step, m.D, m.O, m.Act, m.Loss, m.B, wi, e)
